@@ -670,6 +670,16 @@ class TenSym(PySym):
             return self.ex(n.args[pos])
         return default
 
+    def call_args(self, call):
+        """evaluated positional arguments of a call, `*seq` expanded"""
+        out = []
+        for a in call.args:
+            if isinstance(a, ast.Starred):
+                out.extend(self.iterate(self.ex(a.value)))
+            else:
+                out.append(self.ex(a))
+        return out
+
     def shape_arg(self, v):
         if isinstance(v, (tuple, list)):
             return tuple(self.concrete(x) for x in v)
